@@ -231,27 +231,71 @@ func (fs facts) rangeOf(t *Term) (lo, hi int64, excl map[int64]bool, ok bool) {
 		}
 		return f.lo, f.hi, f.excl, true
 	}
-	// var + const / var - const (no wrap assumed only for small ranges)
-	if (t.Op == "add" || t.Op == "sub") && t.Args[1].IsConst() {
-		if v := baseVar(t.Args[0]); v != nil {
-			f := fs.get(v)
-			if f == nil {
-				return 0, 0, nil, false
+	// interval arithmetic over small ranges (no wrap possible inside +-2^40 for widths >= 64; narrower widths re-checked)
+	const big = int64(1) << 40
+	fits := func(lo, hi int64) bool {
+		if lo < -big || hi > big {
+			return false
+		}
+		if !t.S && (lo < 0 || (t.W < 63 && hi > 1<<uint(t.W)-1)) {
+			return false
+		}
+		if t.S && t.W < 64 && (lo < -(1<<uint(t.W-1)) || hi > 1<<uint(t.W-1)-1) {
+			return false
+		}
+		return true
+	}
+	switch t.Op {
+	case "add", "sub":
+		alo, ahi, _, okA := fs.rangeOf(t.Args[0])
+		blo, bhi, _, okB := fs.rangeOf(t.Args[1])
+		if okA && okB && alo > -big && ahi < big && blo > -big && bhi < big {
+			if t.Op == "add" {
+				lo, hi = alo+blo, ahi+bhi
+			} else {
+				lo, hi = alo-bhi, ahi-blo
 			}
-			c := t.Args[1].K
-			if t.Op == "sub" {
-				c = -c
-			}
-			if f.lo > -(1<<40) && f.hi < 1<<40 && c > -(1<<40) && c < 1<<40 {
-				lo, hi := f.lo+c, f.hi+c
-				if !t.S && (lo < 0 || (t.W < 63 && hi > 1<<uint(t.W)-1)) {
-					return 0, 0, nil, false
-				}
-				if t.S && t.W < 64 && (lo < -(1<<uint(t.W-1)) || hi > 1<<uint(t.W-1)-1) {
-					return 0, 0, nil, false
-				}
+			if fits(lo, hi) {
 				return lo, hi, nil, true
 			}
+		}
+	case "mul":
+		alo, ahi, _, okA := fs.rangeOf(t.Args[0])
+		blo, bhi, _, okB := fs.rangeOf(t.Args[1])
+		if okA && okB && alo > -(1<<20) && ahi < 1<<20 && blo > -(1<<20) && bhi < 1<<20 {
+			c := []int64{alo * blo, alo * bhi, ahi * blo, ahi * bhi}
+			lo, hi = c[0], c[0]
+			for _, x := range c[1:] {
+				if x < lo {
+					lo = x
+				}
+				if x > hi {
+					hi = x
+				}
+			}
+			if fits(lo, hi) {
+				return lo, hi, nil, true
+			}
+		}
+	case "conv":
+		x := t.Args[0]
+		if x.W > 0 && ((x.S == t.S && t.W >= x.W) || (!x.S && t.S && t.W > x.W)) {
+			lo, hi, _, ok := fs.rangeOf(x)
+			if ok {
+				return lo, hi, nil, true
+			}
+		}
+	case "ite":
+		alo, ahi, _, okA := fs.rangeOf(t.Args[1])
+		blo, bhi, _, okB := fs.rangeOf(t.Args[2])
+		if okA && okB {
+			if blo < alo {
+				alo = blo
+			}
+			if bhi > ahi {
+				ahi = bhi
+			}
+			return alo, ahi, nil, true
 		}
 	}
 	return 0, 0, nil, false
